@@ -1,3 +1,744 @@
+//! C23/C24/C25/C27 (spec/WorkingCopy.tla): script interpreter on a real
+//! `LocalWorkingCopy` in a temp dir.
+//!
+//! A script is a list of model actions (user edits, Snapshot, CheckOut,
+//! SetSparse).  `replay` executes TLC-generated scripts (S->I), `random`
+//! executes scripts drawn by a seeded driver (I->S).  After EVERY action the
+//! real state is projected to the model's vocabulary (value of every universe
+//! path on disk and in the working-copy tree, recorded file states, sparse
+//! patterns, the sentinel directory outside the workspace) and logged.  Every
+//! jj action runs in a workspace loaded afresh from disk, as a new process
+//! would.  Nothing is decided here: TLC (Trace_WorkingCopy) judges.
+use std::os::unix::fs::PermissionsExt as _;
+use std::path::Path;
+use std::path::PathBuf;
+
+use jj_lib::backend::TreeValue;
+use jj_lib::conflict_labels::ConflictLabels;
+use jj_lib::conflicts::MIN_CONFLICT_MARKER_LEN;
+use jj_lib::conflicts::parse_conflict;
+use jj_lib::local_working_copy::FileType;
+use jj_lib::local_working_copy::LocalWorkingCopy;
+use jj_lib::merge::Merge;
+use jj_lib::merged_tree::MergedTree;
+use jj_lib::object_id::ObjectId as _;
+use jj_lib::repo_path::RepoPathBuf;
+use jj_lib::working_copy::CheckoutStats;
 use jjconf::util::Opts;
-pub fn replay(_opts: &Opts) -> Result<(), String> { Err("todo".into()) }
-pub fn random(_opts: &Opts) -> Result<(), String> { Err("todo".into()) }
+use jjconf::util::Out;
+use jjconf::util::Rng;
+use jjconf::util::catch;
+use jjconf::util::read_ndjson;
+use pollster::FutureExt as _;
+use serde_json::Value;
+use serde_json::json;
+use testutils::TestTreeBuilder;
+use testutils::commit_with_tree;
+use testutils::empty_snapshot_options;
+
+use crate::common::Ws;
+
+/// The path universe, in jj's tree order ("gi" stands for ".gitignore").
+pub const PATHS: [&[&str]; 6] = [&["gi"], &["d"], &["d", "gi"], &["d", "x"], &["d", "y"], &["f"]];
+
+/// Ignore-file vocabulary: id (1-based) -> lines [neg, anchored, dir-only, name].
+pub const VOCAB: [&[(bool, bool, bool, &str)]; 7] = [
+    &[(false, false, false, "f")],                            // 1  f
+    &[(false, false, true, "d")],                             // 2  d/
+    &[(false, false, false, "x")],                            // 3  x
+    &[(false, false, false, "*"), (true, false, false, "x")], // 4  * !x
+    &[(true, false, false, "x")],                             // 5  !x
+    &[(false, true, false, "y")],                             // 6  /y
+    &[(false, false, false, "d")],                            // 7  d
+];
+
+fn real_comp(c: &str) -> &str {
+    if c == "gi" { ".gitignore" } else { c }
+}
+
+fn vocab_text(id: usize) -> String {
+    let mut s = String::new();
+    for &(neg, anch, dironly, name) in VOCAB[id - 1] {
+        if neg {
+            s.push('!');
+        }
+        if anch {
+            s.push('/');
+        }
+        s.push_str(real_comp(name));
+        if dironly {
+            s.push('/');
+        }
+        s.push('\n');
+    }
+    s
+}
+
+fn vocab_json() -> Value {
+    json!(
+        VOCAB
+            .iter()
+            .map(|pats| pats
+                .iter()
+                .map(|&(neg, anch, dironly, name)| json!({"neg":neg,"anch":anch,"dironly":dironly,"name":name}))
+                .collect::<Vec<_>>())
+            .collect::<Vec<_>>()
+    )
+}
+
+fn is_ignore_path(p: &[&str]) -> bool {
+    p.last() == Some(&"gi")
+}
+
+fn content_bytes(p: &[&str], c: i64) -> Vec<u8> {
+    if is_ignore_path(p) { vocab_text(c as usize).into_bytes() } else { format!("c{c}\n").into_bytes() }
+}
+
+fn content_id(p: &[&str], bytes: &[u8]) -> Option<i64> {
+    if is_ignore_path(p) {
+        (1..=VOCAB.len()).find(|&i| vocab_text(i).as_bytes() == bytes).map(|i| i as i64)
+    } else {
+        let s = std::str::from_utf8(bytes).ok()?;
+        let n: i64 = s.strip_prefix('c')?.strip_suffix('\n')?.parse().ok()?;
+        (n >= 1).then_some(n)
+    }
+}
+
+fn repo_path(p: &[&str]) -> RepoPathBuf {
+    RepoPathBuf::from_internal_string(p.iter().map(|c| real_comp(c)).collect::<Vec<_>>().join("/")).unwrap()
+}
+
+fn val(k: &str, c: i64, x: bool, t: &str, m: Vec<i64>) -> Value {
+    json!({"k":k,"c":c,"x":x,"t":t,"m":m})
+}
+
+fn absent() -> Value {
+    val("absent", 0, false, "", vec![])
+}
+
+struct Env {
+    ws: Ws,
+    root: PathBuf,
+    outside: PathBuf,
+}
+
+impl Env {
+    fn new(xp: &str) -> Self {
+        let ws = Ws::new(&format!("working-copy.exec-bit-change = \"{xp}\"\n"));
+        let root = ws.root();
+        // the sentinel directory outside the workspace
+        let outside = ws.tw.env.root().join("outside");
+        std::fs::create_dir(&outside).unwrap();
+        std::fs::write(outside.join("x"), b"c1\n").unwrap();
+        Self { ws, root, outside }
+    }
+
+    fn fs_path(&self, p: &[&str]) -> PathBuf {
+        let mut q = self.root.clone();
+        for c in p {
+            q.push(real_comp(c));
+        }
+        q
+    }
+
+    fn target_to_disk(&self, t: &str) -> PathBuf {
+        if t == "out" { self.outside.clone() } else { PathBuf::from(t) }
+    }
+
+    fn target_from_disk(&self, t: &Path) -> String {
+        if t == self.outside { "out".to_string() } else { t.to_string_lossy().into_owned() }
+    }
+
+    /// value of a file-system entry in the model vocabulary
+    fn project_entry(&self, p: &[&str], path: &Path) -> Value {
+        let Ok(md) = std::fs::symlink_metadata(path) else {
+            return absent();
+        };
+        if md.is_dir() {
+            return val("dir", 0, false, "", vec![]);
+        }
+        if md.file_type().is_symlink() {
+            let t = std::fs::read_link(path).unwrap();
+            return val("symlink", 0, false, &self.target_from_disk(&t), vec![]);
+        }
+        let x = md.permissions().mode() & 0o111 != 0;
+        let bytes = std::fs::read(path).unwrap_or_default();
+        if let Some(c) = content_id(p, &bytes) {
+            return val("file", c, x, "", vec![]);
+        }
+        // not a plain model content: decode conflict markers with jj's parser
+        // (that materialise/parse are inverse is C05's subject)
+        if let Some(m) = decode_conflict(p, &bytes) {
+            return val("file", 0, x, "", m);
+        }
+        val("file", -1, x, "", vec![])
+    }
+
+    fn project_disk(&self) -> Vec<Value> {
+        PATHS
+            .iter()
+            .map(|p| {
+                // a path below something that is not a real directory does not exist
+                // (never resolve through a symlinked parent)
+                let parent_is_dir = p.len() == 1
+                    || std::fs::symlink_metadata(self.fs_path(&p[..p.len() - 1])).is_ok_and(|m| m.is_dir());
+                if parent_is_dir { self.project_entry(p, &self.fs_path(p)) } else { absent() }
+            })
+            .collect()
+    }
+
+    fn project_outside(&self) -> Value {
+        json!({"x": self.project_entry(&["x"], &self.outside.join("x")),
+               "y": self.project_entry(&["y"], &self.outside.join("y"))})
+    }
+
+    /// names on disk that are not in the universe (none expected)
+    fn extra_entries(&self) -> Vec<String> {
+        let mut out = vec![];
+        let known_root = [".gitignore", "d", "f", ".jj"];
+        if let Ok(rd) = std::fs::read_dir(&self.root) {
+            for e in rd.flatten() {
+                let n = e.file_name().to_string_lossy().into_owned();
+                if !known_root.contains(&n.as_str()) {
+                    out.push(n);
+                }
+            }
+        }
+        let d = self.root.join("d");
+        if std::fs::symlink_metadata(&d).is_ok_and(|m| m.is_dir()) {
+            if let Ok(rd) = std::fs::read_dir(&d) {
+                for e in rd.flatten() {
+                    let n = e.file_name().to_string_lossy().into_owned();
+                    if ![".gitignore", "x", "y"].contains(&n.as_str()) {
+                        out.push(format!("d/{n}"));
+                    }
+                }
+            }
+        }
+        if let Ok(rd) = std::fs::read_dir(&self.outside) {
+            for e in rd.flatten() {
+                let n = e.file_name().to_string_lossy().into_owned();
+                if !["x", "y"].contains(&n.as_str()) {
+                    out.push(format!("outside/{n}"));
+                }
+            }
+        }
+        out.sort();
+        out
+    }
+}
+
+/// content ids of the terms of the conflict a marker file decodes to
+fn decode_conflict(p: &[&str], bytes: &[u8]) -> Option<Vec<i64>> {
+    let hunks = parse_conflict(bytes, 2, MIN_CONFLICT_MARKER_LEN)?;
+    let n = 3;
+    let mut terms: Vec<Vec<u8>> = vec![vec![]; n];
+    for h in &hunks {
+        if let Some(r) = h.as_resolved() {
+            for t in &mut terms {
+                t.extend_from_slice(r);
+            }
+        } else {
+            if h.as_slice().len() != n {
+                return None;
+            }
+            for (t, part) in terms.iter_mut().zip(h.as_slice()) {
+                t.extend_from_slice(part);
+            }
+        }
+    }
+    terms.iter().map(|t| if t.is_empty() { Some(0) } else { content_id(p, t) }).collect()
+}
+
+fn project_tree_value(env: &Env, tree: &MergedTree, p: &[&str]) -> Value {
+    let rp = repo_path(p);
+    let v = match tree.path_value(&rp).block_on() {
+        Ok(v) => v,
+        Err(_) => return val("error", 0, false, "", vec![]),
+    };
+    let store = tree.store();
+    let term_val = |tv: &Option<TreeValue>| -> Value {
+        match tv {
+            None => absent(),
+            Some(TreeValue::File { id, executable, .. }) => {
+                let bytes = testutils::read_file(store, &rp, id);
+                match content_id(p, &bytes) {
+                    Some(c) => val("file", c, *executable, "", vec![]),
+                    None => val("file", -1, *executable, "", vec![]),
+                }
+            }
+            Some(TreeValue::Symlink(id)) => {
+                let t = store.read_symlink(&rp, id).block_on().unwrap_or_default();
+                val("symlink", 0, false, &env.target_from_disk(Path::new(&t)), vec![])
+            }
+            Some(TreeValue::Tree(_)) => val("tree", 0, false, "", vec![]),
+            Some(_) => val("other", 0, false, "", vec![]),
+        }
+    };
+    let v = match v.resolve_trivial(jj_lib::merge::SameChange::Accept) {
+        Some(tv) => Merge::resolved(tv.clone()),
+        None => v,
+    };
+    if let Some(tv) = v.as_resolved() {
+        let r = term_val(tv);
+        // a directory in the tree is "absent" as a file path
+        if r["k"] == "tree" { absent() } else { r }
+    } else if v.iter().all(|t| matches!(t, None | Some(TreeValue::Tree(_)))) {
+        // a directory whose contents differ between the sides: not a file path
+        absent()
+    } else {
+        let m: Vec<i64> = v
+            .iter()
+            .map(|t| {
+                let tvj = term_val(t);
+                if tvj["k"] == "file" { tvj["c"].as_i64().unwrap() } else if tvj["k"] == "absent" || tvj["k"] == "tree" { 0 } else { -2 }
+            })
+            .collect();
+        val("conflict", 0, false, "", m)
+    }
+}
+
+fn project_tree(env: &Env, tree: &MergedTree) -> Vec<Value> {
+    PATHS.iter().map(|p| project_tree_value(env, tree, p)).collect()
+}
+
+/// build the MergedTree a model tree (values in PATHS order) denotes
+fn build_tree(env: &Env, tree: &[Value]) -> Result<MergedTree, String> {
+    let store = env.ws.store();
+    let conflicted = tree.iter().any(|v| v["k"] == "conflict");
+    let nterms = if conflicted { 3 } else { 1 };
+    let mut builders: Vec<TestTreeBuilder> = (0..nterms).map(|_| TestTreeBuilder::new(store.clone())).collect();
+    for (p, v) in PATHS.iter().zip(tree) {
+        let rp = repo_path(p);
+        match v["k"].as_str().unwrap_or("") {
+            "absent" => {}
+            "file" => {
+                for b in &mut builders {
+                    b.file(&rp, content_bytes(p, v["c"].as_i64().unwrap())).executable(v["x"].as_bool().unwrap_or(false));
+                }
+            }
+            "symlink" => {
+                let t = env.target_to_disk(v["t"].as_str().unwrap());
+                for b in &mut builders {
+                    b.symlink(&rp, t.to_str().unwrap());
+                }
+            }
+            "conflict" => {
+                let m = v["m"].as_array().ok_or("conflict without terms")?;
+                if m.len() != 3 {
+                    return Err("only 3-term conflicts".into());
+                }
+                for (b, t) in builders.iter_mut().zip(m) {
+                    let c = t.as_i64().unwrap();
+                    if c != 0 {
+                        b.file(&rp, content_bytes(p, c));
+                    }
+                }
+            }
+            k => return Err(format!("bad tree value kind {k}")),
+        }
+    }
+    let ids: Vec<_> = builders.into_iter().map(|b| b.write_single_tree().id().clone()).collect();
+    Ok(if ids.len() == 1 {
+        MergedTree::resolved(store, ids[0].clone())
+    } else {
+        MergedTree::new(store, Merge::from_vec(ids), ConflictLabels::unlabeled())
+    })
+}
+
+fn stats_json(s: &CheckoutStats) -> Value {
+    json!({"added": s.added_files, "updated": s.updated_files, "removed": s.removed_files, "skipped": s.skipped_files})
+}
+
+fn comps(v: &Value) -> Vec<String> {
+    v.as_array().map(|a| a.iter().map(|c| c.as_str().unwrap_or("").to_string()).collect()).unwrap_or_default()
+}
+
+/// executes one step; returns (stats, error)
+fn exec_step(env: &mut Env, st: &Value) -> Result<Value, String> {
+    let a = st["a"].as_str().ok_or("step without a")?;
+    let pc = comps(&st["p"]);
+    let p: Vec<&str> = pc.iter().map(|s| s.as_str()).collect();
+    let path = env.fs_path(&p);
+    let io = |e: std::io::Error| format!("{a} {}: {e}", path.display());
+    let no_stats = json!({"added":0,"updated":0,"removed":0,"skipped":0});
+    match a {
+        "Write" => {
+            std::fs::write(&path, content_bytes(&p, st["c"].as_i64().ok_or("Write without c")?)).map_err(io)?;
+            Ok(no_stats)
+        }
+        "Chmod" => {
+            let md = std::fs::metadata(&path).map_err(io)?;
+            let mode = if md.permissions().mode() & 0o111 != 0 { 0o644 } else { 0o755 };
+            std::fs::set_permissions(&path, std::fs::Permissions::from_mode(mode)).map_err(io)?;
+            Ok(no_stats)
+        }
+        "Symlink" => {
+            if std::fs::symlink_metadata(&path).is_ok() {
+                std::fs::remove_file(&path).map_err(io)?;
+            }
+            std::os::unix::fs::symlink(env.target_to_disk(st["t"].as_str().ok_or("Symlink without t")?), &path).map_err(io)?;
+            Ok(no_stats)
+        }
+        "Delete" => {
+            std::fs::remove_file(&path).map_err(io)?;
+            Ok(no_stats)
+        }
+        "FileToDir" => {
+            if std::fs::symlink_metadata(&path).is_ok() {
+                std::fs::remove_file(&path).map_err(io)?;
+            }
+            std::fs::create_dir(&path).map_err(io)?;
+            Ok(no_stats)
+        }
+        "RmTree" => {
+            std::fs::remove_dir_all(&path).map_err(io)?;
+            Ok(no_stats)
+        }
+        "DirToFile" => {
+            std::fs::remove_dir_all(&path).map_err(io)?;
+            std::fs::write(&path, content_bytes(&p, st["c"].as_i64().ok_or("DirToFile without c")?)).map_err(io)?;
+            Ok(no_stats)
+        }
+        "Snapshot" => {
+            env.ws.reload()?;
+            let op = env.ws.repo().op_id().clone();
+            let mut locked = env.ws.tw.workspace.working_copy().start_mutation().block_on().map_err(|e| e.to_string())?;
+            locked.snapshot(&empty_snapshot_options()).block_on().map_err(|e| format!("jj-error snapshot: {e}"))?;
+            locked.finish(op).block_on().map_err(|e| format!("jj-error finish: {e}"))?;
+            Ok(no_stats)
+        }
+        "CheckOut" => {
+            env.ws.reload()?;
+            let op = env.ws.repo().op_id().clone();
+            let tree = build_tree(env, st["tree"].as_array().ok_or("CheckOut without tree")?)?;
+            let commit = commit_with_tree(&env.ws.store(), tree);
+            let mut locked = env.ws.tw.workspace.working_copy().start_mutation().block_on().map_err(|e| e.to_string())?;
+            let stats = locked.check_out(&commit).block_on().map_err(|e| format!("jj-error check_out: {e}"))?;
+            locked.finish(op).block_on().map_err(|e| format!("jj-error finish: {e}"))?;
+            Ok(stats_json(&stats))
+        }
+        "SetSparse" => {
+            env.ws.reload()?;
+            let op = env.ws.repo().op_id().clone();
+            let pats: Vec<RepoPathBuf> = st["sp"]
+                .as_array()
+                .ok_or("SetSparse without sp")?
+                .iter()
+                .map(|q| {
+                    let c = comps(q);
+                    if c.is_empty() { RepoPathBuf::root() } else { repo_path(&c.iter().map(|s| s.as_str()).collect::<Vec<_>>()) }
+                })
+                .collect();
+            let mut locked = env.ws.tw.workspace.working_copy().start_mutation().block_on().map_err(|e| e.to_string())?;
+            let stats = locked.set_sparse_patterns(pats).block_on().map_err(|e| format!("jj-error set_sparse: {e}"))?;
+            locked.finish(op).block_on().map_err(|e| format!("jj-error finish: {e}"))?;
+            Ok(stats_json(&stats))
+        }
+        other => Err(format!("unknown action {other}")),
+    }
+}
+
+/// projection after a user edit: jj's state files were not touched, so the jj part of
+/// the previous observation is reused and only the disk is projected again
+fn observe_after_edit(env: &mut Env, prev: Option<&Value>) -> Result<Value, String> {
+    let Some(prev) = prev else {
+        return observe(env, json!({"added":0,"updated":0,"removed":0,"skipped":0}), "");
+    };
+    let mut o = prev.clone();
+    o["disk"] = json!(env.project_disk());
+    o["out"] = env.project_outside();
+    o["stats"] = json!({"added":0,"updated":0,"removed":0,"skipped":0});
+    let n_foreign_states = prev["nfs"].as_u64().unwrap_or(0) as usize;
+    o["extra"] = json!(env.extra_entries().len() + n_foreign_states);
+    Ok(o)
+}
+
+fn is_edit(st: &Value) -> bool {
+    !matches!(st["a"].as_str(), Some("Snapshot" | "CheckOut" | "SetSparse"))
+}
+
+/// projection of the whole state after a step
+fn observe(env: &mut Env, stats: Value, err: &str) -> Result<Value, String> {
+    env.ws.reload()?;
+    let wc: &LocalWorkingCopy =
+        env.ws.tw.workspace.working_copy().downcast_ref().ok_or("not a LocalWorkingCopy")?;
+    let tree = jj_lib::working_copy::WorkingCopy::tree(wc).map_err(|e| e.to_string())?.clone();
+    let states = wc.file_states().map_err(|e| e.to_string())?;
+    let fs: Vec<Value> = PATHS
+        .iter()
+        .map(|p| match states.get(&repo_path(p)) {
+            None => json!({"k":"none","x":false}),
+            Some(s) => match s.file_type {
+                FileType::Normal { .. } => json!({"k":"file","x": states.get_exec_bit(&repo_path(p)).is_some_and(|b| format!("{b:?}").contains("true"))}),
+                FileType::Symlink => json!({"k":"symlink","x":false}),
+                FileType::GitSubmodule => json!({"k":"submodule","x":false}),
+            },
+        })
+        .collect();
+    let n_states = states.iter().count();
+    let n_states_universe = fs.iter().filter(|f| f["k"] != "none").count();
+    let sparse: Vec<Vec<String>> = jj_lib::working_copy::WorkingCopy::sparse_patterns(wc)
+        .map_err(|e| e.to_string())?
+        .iter()
+        .map(|p| p.components().map(|c| if c.as_internal_str() == ".gitignore" { "gi".to_string() } else { c.as_internal_str().to_string() }).collect())
+        .collect();
+    let tree_ids: Vec<String> = tree.tree_ids().iter().map(|id| id.hex()).collect();
+    Ok(json!({
+        "disk": env.project_disk(),
+        "out": env.project_outside(),
+        "tree": project_tree(env, &tree),
+        "fs": fs,
+        "sparse": sparse,
+        "stats": stats,
+        "err": err,
+        "extra": env.extra_entries().len() + (n_states - n_states_universe),
+        "nfs": n_states - n_states_universe,
+        "tid": tree_ids.join(","),
+    }))
+}
+
+fn exec_caught(env: &mut Env, st: &Value) -> Result<Result<Value, String>, String> {
+    catch(std::panic::AssertUnwindSafe(|| exec_step(env, st)))
+}
+
+fn run_script(script: &Value) -> Result<Value, String> {
+    let xp = script["xp"].as_str().unwrap_or("respect").to_string();
+    let steps = script["steps"].as_array().ok_or("script without steps")?.clone();
+    let mut env = Env::new(&xp);
+    let mut obs = vec![];
+    let mut done_steps = vec![];
+    for st in &steps {
+        let r = exec_caught(&mut env, st);
+        done_steps.push(st.clone());
+        let no_stats = json!({"added":0,"updated":0,"removed":0,"skipped":0});
+        match r {
+            Ok(Ok(_)) if is_edit(st) => {
+                let o = observe_after_edit(&mut env, obs.last())?;
+                obs.push(o);
+            }
+            Ok(Ok(stats)) => obs.push(observe(&mut env, stats, "")?),
+            Ok(Err(e)) if e.starts_with("jj-error") => {
+                obs.push(observe(&mut env, no_stats, "error")?);
+                let n = obs.len();
+                obs[n - 1]["msg"] = json!(e);
+                break;
+            }
+            Ok(Err(e)) => return Err(format!("harness could not perform step {st}: {e}")),
+            Err(p) => {
+                // a panic inside jj: the process would die here; what a new process sees is data
+                obs.push(observe(&mut env, no_stats, "panic")?);
+                let n = obs.len();
+                obs[n - 1]["msg"] = json!(p);
+                break;
+            }
+        }
+    }
+    Ok(json!({"op":"wc","xp":xp,"steps":done_steps,"obs":obs}))
+}
+
+fn paths_json() -> Value {
+    json!(PATHS.iter().map(|p| p.to_vec()).collect::<Vec<_>>())
+}
+
+pub fn replay(opts: &Opts) -> Result<(), String> {
+    jjconf::util::quiet_panics();
+    let scripts = read_ndjson(&opts.str("in", "scripts.ndjson"))?;
+    let mut out = Out::create(&opts.str("out", "obs.ndjson"))?;
+    out.emit(&json!({"op":"universe","paths":paths_json(),"vocab":vocab_json()}));
+    for (i, s) in scripts.iter().enumerate() {
+        let mut r = run_script(s).map_err(|e| format!("script {i}: {e}"))?;
+        r["case"] = json!(i);
+        out.emit(&r);
+    }
+    out.finish();
+    Ok(())
+}
+
+// ---------------------------------------------------------------------------
+// I->S: seeded random scripts.  The driver draws twice as many steps as needed
+// and drops the user edits the real disk does not admit (the file system's own
+// enabling conditions); it predicts nothing about jj.
+
+#[derive(Clone, Copy, PartialEq)]
+enum K {
+    Absent,
+    File,
+    Symlink,
+    Dir,
+}
+
+fn idx(p: &[&str]) -> usize {
+    PATHS.iter().position(|q| *q == p).unwrap()
+}
+
+fn random_tree(rng: &mut Rng, conflicts: bool) -> Vec<Value> {
+    let mut t: Vec<Value> = PATHS.iter().map(|_| absent()).collect();
+    let leaf = |rng: &mut Rng, p: &[&str], conflicts: bool| -> Value {
+        if is_ignore_path(p) {
+            return val("file", rng.range(1, VOCAB.len()) as i64, false, "", vec![]);
+        }
+        match rng.below(if conflicts { 8 } else { 7 }) {
+            0..=3 => val("file", rng.range(1, 2) as i64, rng.chance(1, 3), "", vec![]),
+            4 => val("symlink", 0, false, if rng.chance(1, 2) { "f" } else { "out" }, vec![]),
+            5 | 6 => val("file", rng.range(1, 2) as i64, false, "", vec![]),
+            _ => {
+                let perms: [[i64; 3]; 6] = [[1, 0, 2], [2, 0, 1], [1, 2, 0], [0, 2, 1], [2, 1, 0], [0, 1, 2]];
+                val("conflict", 0, false, "", rng.pick(&perms).to_vec())
+            }
+        }
+    };
+    if rng.chance(1, 3) {
+        t[idx(&["gi"])] = leaf(rng, &["gi"], false);
+    }
+    if rng.chance(2, 3) {
+        t[idx(&["f"])] = leaf(rng, &["f"], conflicts);
+    }
+    match rng.below(4) {
+        0 => {}
+        1 => t[idx(&["d"])] = leaf(rng, &["d"], conflicts),
+        _ => {
+            for p in [&["d", "gi"][..], &["d", "x"][..], &["d", "y"][..]] {
+                let pr = if is_ignore_path(p) { 4 } else { 2 };
+                if rng.chance(1, pr) {
+                    t[idx(p)] = leaf(rng, p, conflicts);
+                }
+            }
+        }
+    }
+    t
+}
+
+fn random_script(rng: &mut Rng, len: usize, focus: &str) -> Value {
+    let mut steps = vec![];
+    let sparse_sets: Vec<Vec<Vec<&str>>> =
+        vec![vec![vec![]], vec![vec!["d"]], vec![vec!["f"]], vec![vec!["d", "x"], vec!["f"]], vec![vec!["gi"], vec!["d", "y"]], vec![]];
+    let mut tries = 0;
+    while steps.len() < len && tries < 1000 {
+        tries += 1;
+        let jj_weight = match focus {
+            "snapshot" => (25, 4, 0),
+            "checkout" => (15, 30, 0),
+            "sparse" => (15, 10, 20),
+            _ => (20, 15, 8),
+        };
+        let r = rng.below(100);
+        if r < jj_weight.0 {
+            steps.push(json!({"a":"Snapshot"}));
+            continue;
+        }
+        if r < jj_weight.0 + jj_weight.1 {
+            let with_conflicts = focus != "snapshot" || rng.chance(1, 4);
+            let t = random_tree(rng, with_conflicts);
+            steps.push(json!({"a":"CheckOut","tree":t}));
+            continue;
+        }
+        if r < jj_weight.0 + jj_weight.1 + jj_weight.2 {
+            steps.push(json!({"a":"SetSparse","sp": rng.pick(&sparse_sets)}));
+            continue;
+        }
+        // a user edit; validity is checked against the real disk by the executor (see
+        // `random`), so here we only draw the shape
+        let p = *rng.pick(&PATHS);
+        let c = if is_ignore_path(p) { rng.range(1, VOCAB.len()) } else { rng.range(1, 2) } as i64;
+        let e = match rng.below(12) {
+            0..=4 => json!({"a":"Write","p":p,"c":c}),
+            5 => json!({"a":"Chmod","p":p}),
+            6 => json!({"a":"Symlink","p":p,"t": if rng.chance(1, 2) { "f" } else { "out" }}),
+            7 | 8 => json!({"a":"Delete","p":p}),
+            9 => json!({"a":"FileToDir","p":["d"]}),
+            10 => json!({"a":"DirToFile","p":["d"],"c":c}),
+            _ => json!({"a":"RmTree","p":["d"]}),
+        };
+        steps.push(e);
+    }
+    json!({"steps": steps})
+}
+
+/// is the user edit applicable to the real disk right now? (the file system's own rules,
+/// the same enabling conditions as the model's Can* predicates)
+fn edit_applicable(env: &Env, st: &Value) -> bool {
+    let a = st["a"].as_str().unwrap_or("");
+    let pc = comps(&st["p"]);
+    let p: Vec<&str> = pc.iter().map(|s| s.as_str()).collect();
+    if p.is_empty() {
+        return true;
+    }
+    let kind = |q: &[&str]| -> K {
+        match std::fs::symlink_metadata(env.fs_path(q)) {
+            Err(_) => K::Absent,
+            Ok(m) if m.is_dir() => K::Dir,
+            Ok(m) if m.file_type().is_symlink() => K::Symlink,
+            Ok(_) => K::File,
+        }
+    };
+    let parent_ok = p.len() == 1 || kind(&p[..p.len() - 1]) == K::Dir;
+    if !parent_ok {
+        // below something that is not a real directory nothing exists (and the
+        // "user" never reaches through a symlinked directory)
+        return false;
+    }
+    let k = kind(&p);
+    match a {
+        "Write" => parent_ok && (k == K::Absent || k == K::File),
+        "Chmod" => k == K::File && !is_ignore_path(&p),
+        "Symlink" => parent_ok && k != K::Dir && !is_ignore_path(&p),
+        "Delete" => k == K::File || k == K::Symlink,
+        "FileToDir" => parent_ok && k != K::Dir,
+        "RmTree" | "DirToFile" => k == K::Dir,
+        _ => true,
+    }
+}
+
+pub fn random(opts: &Opts) -> Result<(), String> {
+    jjconf::util::quiet_panics();
+    let mut out = Out::create(&opts.str("out", "obs.ndjson"))?;
+    let seed = opts.u64("seed", 0);
+    let n = opts.usize("n", 100);
+    let len = opts.usize("len", 12);
+    let focus = opts.str("focus", "mixed");
+    let mut rng = Rng::new(seed ^ 0x5eed_0000);
+    out.emit(&json!({"op":"universe","paths":paths_json(),"vocab":vocab_json()}));
+    for i in 0..n {
+        let xp = if rng.chance(1, 5) { "ignore" } else { "respect" };
+        let draft = random_script(&mut rng, len * 2, &focus);
+        // execute step by step, dropping user edits the real disk does not admit
+        let mut env = Env::new(xp);
+        let mut obs = vec![];
+        let mut done = vec![];
+        for st in draft["steps"].as_array().unwrap() {
+            if done.len() >= len {
+                break;
+            }
+            if !edit_applicable(&env, st) {
+                continue;
+            }
+            let r = exec_caught(&mut env, st);
+            done.push(st.clone());
+            let no_stats = json!({"added":0,"updated":0,"removed":0,"skipped":0});
+            match r {
+                Ok(Ok(_)) if is_edit(st) => {
+                    let o = observe_after_edit(&mut env, obs.last())?;
+                    obs.push(o);
+                }
+                Ok(Ok(stats)) => obs.push(observe(&mut env, stats, "")?),
+                Ok(Err(e)) if e.starts_with("jj-error") => {
+                    let mut o = observe(&mut env, no_stats, "error")?;
+                    o["msg"] = json!(e);
+                    obs.push(o);
+                    break;
+                }
+                Ok(Err(e)) => return Err(format!("random script {i}: harness could not perform {st}: {e}")),
+                Err(p) => {
+                    let mut o = observe(&mut env, no_stats, "panic")?;
+                    o["msg"] = json!(p);
+                    obs.push(o);
+                    break;
+                }
+            }
+        }
+        out.emit(&json!({"op":"wc","case":i,"xp":xp,"steps":done,"obs":obs}));
+    }
+    out.finish();
+    Ok(())
+}
